@@ -528,7 +528,7 @@ def next_end_tokens(state: TokenizerState, open_line: bool) -> Iterator[TokenInf
             "",
             (state.lnum - 1, len(state.last_line)),
             (state.lnum - 1, len(state.last_line) + 1),
-            "",
+            state.last_line,
         )
     # (state.line is the physical line the input ended on: empty, or blanks without a newline)
     for _ in state.indents[1:]:  # pop remaining indent levels
